@@ -16,6 +16,8 @@ EXPLANATION = (
     'reduced once per factor and factor step over factor_group(name,X).  The strategy flags are the specified comparisons. '
     'Every declared tensor slot is counted in memory_usage().  Byte counts as numbers are not decided.')
 
+NOT_DECIDED = 'byte counts as numbers'
+
 
 def run(ctx: Ctx) -> None:
     ctx.do(R.rule_own_so)
